@@ -221,7 +221,7 @@ Definition tuple_target (cols : list colspec) : N :=
   | [t] =>
     if is_nat t Int then 1 else if is_nat t Blob then 3 else if is_nat t Boolean then 4
     else match t with
-         | TList _ e | TSet _ e => if is_nat e Int then 5 else 0
+         | TList _ e | TSet _ e | TVector e _ => if is_nat e Int then 5 else 0   (* Vec<T>::type_check: list, set, vector *)
          | _ => 0
          end
   | [a; b] => if is_nat a BigInt && (is_nat b Text || is_nat b Ascii) then 2 else 0
@@ -239,6 +239,17 @@ Fixpoint int_items (fuel : nat) (n : N) (b : bytes) : bool :=
                 | Some (Some e, r) => (List.length e =? 4)%nat && int_items f (n - 1) r
                 end
        end.
+(* vector<int, d> as Vec<Option<i32>> (VectorIterator, constant element length 4): per element, an
+   exhausted slice is a null element (read_n_bytes: Ok(None)), fewer than 4 bytes an error; what is
+   left behind the d-th element is ignored *)
+Fixpoint vec_int_items (n : nat) (b : bytes) : bool :=
+  match n with
+  | O => true
+  | S k => match b with
+           | [] => true
+           | _ => (4 <=? List.length b)%nat && vec_int_items k (skipn 4 b)
+           end
+  end.
 (* does the typed target accept the cell (Option<T>: null is fine; T itself as in value.rs) *)
 Definition tuple_cell_ok (target : N) (pos : nat) (t : coltype) (raw : cell) : bool :=
   if target =? 1 then fixed_ok 4 raw
@@ -254,10 +265,15 @@ Definition tuple_cell_ok (target : N) (pos : nat) (t : coltype) (raw : cell) : b
   else if target =? 4 then fixed_ok 1 raw
   else match raw with
        | None => true
-       | Some s => match run read_int_length s with
+       | Some s =>
+         match t with
+         | TVector _ d => vec_int_items (N.to_nat d) s
+         | _ =>
+                   match run read_int_length s with
                    | Ok (n, r) => int_items (S (List.length r)) n r
                    | Err _ => false
                    end
+         end
        end.
 Fixpoint tuple_row_ok (target : N) (pos : nat) (cols : list colspec) (row : list cell) : bool :=
   match cols, row with
